@@ -44,14 +44,19 @@ def describe(tier):
         "MemoryError), write through a dressed child, mutate a source afterwards}; exploration continues after refusals. Oracle at EVERY state: for every "
         "field getattr(h, pyname) equals getattr(h._xobject, xoname) equals the model; every dressed child's _xobject is the container's nested field (same "
         "buffer, same offset); copies independent, references shared; after move every nested dressed part lives in the target buffer.",
-        bounds=dict(classes=sorted(OUTERS), renames=RENAMES, depth=3 if tier == "quick" else 4),
+        bounds=dict(classes=sorted(OUTERS), renames=RENAMES, depth="3 (2 for renamed variants of classes that nest hybrid objects)" if tier == "quick" else "4 (3 for classes with 3 fields or renamed nesting classes)"),
         assumptions=["by-value assignments use values of fitting size (misfits are C11's business)"],
         must_fire=["set", "setarr", "nest-dict", "nest-hyb", "ref-bind", "copy", "move", "move-refused", "through", "mutate-src"],
     )
 
 
 def shards(tier, seed):
-    out = [(o, r) for o in sorted(OUTERS) for r in RENAMES]
+    """one shard per (class, rename variant, first event): the BFS below each first event is independent"""
+    common.quiet()
+    out = []
+    for o in sorted(OUTERS):
+        for r in RENAMES:
+            out += [(o, r, i) for i in range(len(World(o, r).events()))]
     return out[seed % len(out):] + out[: seed % len(out)]
 
 
@@ -406,10 +411,26 @@ def check_world(w, res, moved_to=None):
     return out
 
 
+def touch(w):
+    """all attributes of all tracked objects are read (one nesting level deep) after every event of a history"""
+    for oid, o in w.objs.items():
+        specs = OUTERS.get(o["cname"]) or INNERS[o["cname"]]
+        for fn, fs in specs:
+            try:
+                x = getattr(o["h"], w.pyname(oid, fn))
+                if fs[0] in ("hyb", "ref") and x is not None:
+                    for sfn, sfs in INNERS[fs[1]]:
+                        getattr(x, sfn)
+            except Exception:
+                pass
+
+
 def build(oname, rename, hist):
     w = World(oname, rename)
+    touch(w)
     for ev in hist:
         w.apply(ev)
+        touch(w)
     return w
 
 
@@ -433,11 +454,13 @@ def step(w, ev, res):
 
 
 def run_shard(shard, tier, seed):
-    oname, rename = shard
+    oname, rename, first = shard
     res = common.ShardResult()
     depth = 3 if tier == "quick" else 4
     if tier == "thorough" and len(OUTERS[oname]) > 2:
         depth = 3
+    if sum(1 for _, fs in OUTERS[oname] if fs[0] == "hyb") and rename != "none":
+        depth -= 1  # classes nesting hybrid objects have the widest menus: full depth without renaming, one less with it
     feats = dict(cls=oname, rename=rename, kinds=sorted({fs[0] for _, fs in OUTERS[oname]}))
     sig = set()
 
@@ -450,10 +473,12 @@ def run_shard(shard, tier, seed):
             fe = dict(feats, event=ev[0] if ev else "initial", after_refusal=bool(refused), depth=len(hist) + (1 if ev else 0), event_detail=str(ev[3]) if ev and len(ev) > 3 else (str(ev[1]) if ev and len(ev) > 1 else None))
             res.violations.append(common.violation(o, f, fe, dict(cls=oname, rename=rename, hist_idx=hidx, ev_idx=ei, history=[list(map(str, e)) for e in hist], event=list(map(str, ev)) if ev else None), d))
 
-    w0 = build(oname, rename, [])
-    res.cases += 1
-    report(check_world(w0, res), [], [], None, None, False)
-    seen = {canon(w0)}
+    seen = set()
+    if first == 0:
+        w0 = build(oname, rename, [])
+        res.cases += 1
+        report(check_world(w0, res), [], [], None, None, False)
+        seen.add(canon(w0))
     frontier = [([], [])]
     for d in range(depth):
         nf = []
@@ -461,6 +486,8 @@ def run_shard(shard, tier, seed):
             wb = build(oname, rename, hist)
             evs = wb.events()
             for ei, ev in enumerate(evs):
+                if d == 0 and ei != first:
+                    continue
                 w = build(oname, rename, hist)
                 probs, r = step(w, ev, res)
                 res.transitions += 1
@@ -479,7 +506,8 @@ def run_shard(shard, tier, seed):
         res.max_depth = d + 1
         frontier = nf
     res.states = res.nontrivial = len(seen)
-    res.sample(dict(cls=oname, rename=rename, fields=[(n, list(map(str, s))) for n, s in OUTERS[oname]], states=len(seen)))
+    if first == 0:
+        res.sample(dict(cls=oname, rename=rename, fields=[(n, list(map(str, s))) for n, s in OUTERS[oname]], states_below_first_event=len(seen)))
     return res
 
 
